@@ -44,6 +44,18 @@ func tarOf(name string, content []byte) []byte {
 	return buf.Bytes()
 }
 
+// tarOfEntries builds a tar archive with the given entries in order.
+func tarOfEntries(names []string, contents [][]byte) []byte {
+	buf := new(bytes.Buffer)
+	tw := tar.NewWriter(buf)
+	for i, n := range names {
+		_ = tw.WriteHeader(&tar.Header{Name: n, Mode: 0o644, Size: int64(len(contents[i]))})
+		_, _ = tw.Write(contents[i])
+	}
+	_ = tw.Close()
+	return buf.Bytes()
+}
+
 func layerOf(tarBytes []byte) regv1.Layer {
 	l, err := tarball.LayerFromOpener(func() (io.ReadCloser, error) { return io.NopCloser(bytes.NewReader(tarBytes)), nil })
 	if err != nil {
@@ -58,7 +70,12 @@ type FaultyLayer struct {
 	regv1.Layer
 	FailOnCall int
 	FailAt     int
-	calls      int
+	// Style selects how the failure is delivered (io.Reader allows all of
+	// them): 0 = (0, err) on the read after the last byte; 1 = (n > 0, err)
+	// together with the last bytes; 2 = the stream just ends early with a
+	// clean (0, io.EOF); 3 = (n > 0, io.EOF) together with the last bytes.
+	Style int
+	calls int
 }
 
 // Uncompressed implements v1.Layer.
@@ -68,12 +85,20 @@ func (f *FaultyLayer) Uncompressed() (io.ReadCloser, error) {
 	if err != nil || f.FailAt < 0 || f.calls != f.FailOnCall {
 		return rc, err
 	}
-	return &failingReader{rc: rc, left: f.FailAt}, nil
+	return &failingReader{rc: rc, left: f.FailAt, style: f.Style}, nil
 }
 
 type failingReader struct {
-	rc   io.ReadCloser
-	left int
+	rc    io.ReadCloser
+	left  int
+	style int
+}
+
+func (f *failingReader) err() error {
+	if f.style >= 2 {
+		return io.EOF
+	}
+	return ErrInjectedRead
 }
 
 // ErrInjectedRead is the injected registry read error.
@@ -81,13 +106,16 @@ var ErrInjectedRead = errors.New("injected registry read error")
 
 func (f *failingReader) Read(p []byte) (int, error) {
 	if f.left <= 0 {
-		return 0, ErrInjectedRead
+		return 0, f.err()
 	}
 	if len(p) > f.left {
 		p = p[:f.left]
 	}
 	n, err := f.rc.Read(p)
 	f.left -= n
+	if err == nil && f.left <= 0 && n > 0 && (f.style == 1 || f.style == 3) {
+		return n, f.err()
+	}
 	return n, err
 }
 
@@ -113,7 +141,20 @@ func AsPulled(img regv1.Image) regv1.Image { return rawImage{img} }
 // BuildImage builds a package image carrying the YAML stream in the given
 // layout. wrap, if not nil, wraps the package layer (fault injection).
 func BuildImage(stream []byte, layout Layout, wrap func(regv1.Layer) regv1.Layer) regv1.Image {
+	return BuildImageDecoy(stream, nil, layout, wrap)
+}
+
+// BuildImageDecoy is BuildImage with, when decoy is not nil, other files
+// named package.yaml in sub-directories of the package layer, stored before
+// and after the real one (e.g. an examples/ directory). Only the root
+// package.yaml is the package.
+func BuildImageDecoy(stream, decoy []byte, layout Layout, wrap func(regv1.Layer) regv1.Layer) regv1.Image {
 	pkgLayer := layerOf(tarOf(xpkg.StreamFile, stream))
+	if decoy != nil {
+		pkgLayer = layerOf(tarOfEntries(
+			[]string{"examples/" + xpkg.StreamFile, xpkg.StreamFile + ".orig", xpkg.StreamFile, "zz/" + xpkg.StreamFile},
+			[][]byte{decoy, decoy, stream, decoy}))
+	}
 	if wrap != nil {
 		pkgLayer = wrap(pkgLayer)
 	}
